@@ -688,6 +688,43 @@ func (h *H) QueryP(selection bool, withdrawals bool) {
 		return nil
 	})
 	h.emit("R %d %d%s", q, len(tids), rb.String())
+	// the pending-side buckets themselves (store dump accessors, build tag verif)
+	us, _, _, _, _ := h.W.WM.VerifStores()
+	wnum := map[string]int{}
+	for _, wi := range h.Wallets {
+		wnum[wi.ID] = wi.Num
+	}
+	mwdb.View(db, func(rtx mwdb.ReadTransaction) error {
+		var uc []string
+		for _, op := range us.VerifUnminedCredits(rtx) {
+			uc = append(uc, fmt.Sprintf("%d:%d", h.TxID[op.Hash], op.Index))
+		}
+		sort.Strings(uc)
+		h.emit("UC %d %s", len(uc), strings.Join(uc, " "))
+		var ui []string
+		for op, l := range us.VerifUnminedInputs(rtx) {
+			var sp []string
+			for _, th := range l {
+				sp = append(sp, fmt.Sprintf("%d", h.TxID[th]))
+			}
+			ui = append(ui, fmt.Sprintf("%d:%d=%s", h.TxID[op.Hash], op.Index, strings.Join(sp, ",")))
+		}
+		sort.Strings(ui)
+		h.emit("UI %d %s", len(ui), strings.Join(ui, " "))
+		for _, unm := range []bool{false, true} {
+			var gr []string
+			for _, r := range ts.VerifGameRows(rtx, unm) {
+				gr = append(gr, fmt.Sprintf("%d:%d:%d:%d:%d:%d", wnum[r.WalletId], b01(r.IsBinding), b01(r.Withdrawn), h.TxID[r.TxHash], r.Height, r.Vout))
+			}
+			sort.Strings(gr)
+			tag := "GR"
+			if unm {
+				tag = "GU"
+			}
+			h.emit("%s %d %s", tag, len(gr), strings.Join(gr, " "))
+		}
+		return nil
+	})
 }
 
 func decodeTxHex(s string) *wire.MsgTx {
